@@ -49,6 +49,13 @@ void NameCatalog::indexNodeAndMarkAsEncloser(const SyntaxNode* node)
         tyUseAndDef = std::get<Types>(iter->second);
         nonTyUseAndDef = std::get<NonTypes>(iter->second);
     }
+    else {
+        auto iter = enclosureIdx_.find(nullptr);
+        if (iter != enclosureIdx_.end()) {
+            tyUseAndDef = std::get<Types>(iter->second);
+            nonTyUseAndDef = std::get<NonTypes>(iter->second);
+        }
+    }
 
     enclosureIdx_.insert(
             std::make_pair(
@@ -163,7 +170,12 @@ bool NameCatalog::isIndexed(const SyntaxNode* node) const
 
 NameCatalog::Enclosure* NameCatalog::currentEnclosure() const
 {
-    PSY_ASSERT_2(!enclosureStack_.empty(), return nullptr);
+    // Names that occur outside any translation unit or compound statement
+    // (when a stand-alone declaration, statement, or expression is analysed)
+    // belong to a catch-all enclosure.
+    if (enclosureStack_.empty())
+        return &enclosureIdx_[nullptr];
+
     PSY_ASSERT_2(isIndexed(enclosureStack_.top()), return nullptr);
 
     return &enclosureIdx_[enclosureStack_.top()];
